@@ -97,14 +97,15 @@ def py_scheme(ws):
 # --------------------------------------------------------------------------- building the objects
 
 
-def build_labware(spec):
+def build_labware(spec, shared=None):
+    """`shared`: an ndarray to be passed as initial_volumes as is (the same object another labware was built from)"""
     import robotools
 
     if spec["kind"] == "plate":
         kwargs = dict(min_volume=to_float(spec["min"]) if spec["min"] is not None else None,
                       max_volume=to_float(spec["max"]) if spec["max"] is not None else None)
         if spec.get("init") is not None:
-            kwargs["initial_volumes"] = np_arg(spec["init"], to_float)
+            kwargs["initial_volumes"] = np_arg(spec["init"], to_float) if shared is None else shared
         if spec.get("vrows") is not None:
             kwargs["virtual_rows"] = py_int(spec["vrows"])
         if spec.get("names") is not None:
@@ -112,10 +113,26 @@ def build_labware(spec):
         return robotools.Labware(spec["name"], py_int(spec["rows"]), py_int(spec["cols"]), **kwargs)
     kwargs = dict(min_volume=to_float(spec["min"]), max_volume=to_float(spec["max"]))
     if spec.get("init") is not None:
-        kwargs["initial_volumes"] = np_arg(spec["init"], to_float)
+        kwargs["initial_volumes"] = np_arg(spec["init"], to_float) if shared is None else shared
     if spec.get("column_names") is not None:
         kwargs["column_names"] = spec["column_names"]
     return robotools.Trough(spec["name"], py_int(spec["vrows"]), py_int(spec["cols"]), **kwargs)
+
+
+def build_all_labware(specs):
+    import numpy
+
+    arrays = {}
+    lws = []
+    for k, s in enumerate(specs):
+        shared = None
+        if s.get("share_init_with") is not None:
+            shared = arrays.get(s["share_init_with"])
+        elif s.get("init") is not None and s["init"]["shape"] != "scalar":
+            arrays[k] = numpy.array(np_arg(s["init"], to_float), dtype=float)
+            shared = arrays[k]
+        lws.append(build_labware(s, shared))
+    return lws
 
 
 def build_worklist(dev, wl):
@@ -342,7 +359,7 @@ def run_program(case):
 
     obs = {"steps": []}
     try:
-        lws = [build_labware(s) for s in case["labware"]]
+        lws = build_all_labware(case["labware"])
     except Exception as e:
         return {"build_error": type(e).__name__, "steps": []}
     wl = build_worklist(case["dev"], case["wl"])
